@@ -1,12 +1,38 @@
 #!/bin/bash
-# refresh go.sum of harness module $1 from the target repo modules (offline; nothing is fetched)
+# (re)generates go.mod/go.sum of harness module $1 from the target repo module: same
+# requirement set as the target (so MVS picks the versions in the offline module cache),
+# relative replaces made absolute, plus the target itself and verifkit. Nothing is fetched.
 HERE="$(cd "$(dirname "$0")/.." && pwd)"
 case "$1" in
-  x) SRC="/repo/x/go/go.sum";;
-  core) SRC="/repo/core/go.sum";;
-  cesium) SRC="/repo/cesium/go.sum";;
-  aspen) SRC="/repo/aspen/go.sum";;
-  freighter) SRC="/repo/freighter/go/go.sum /repo/freighter/integration/go.sum";;
-  arc) SRC="/repo/arc/go/go.sum";;
+  x) T=/repo/x/go; P=github.com/synnaxlabs/x;;
+  core) T=/repo/core; P=github.com/synnaxlabs/synnax;;
+  cesium) T=/repo/cesium; P=github.com/synnaxlabs/cesium;;
+  aspen) T=/repo/aspen; P=github.com/synnaxlabs/aspen;;
+  freighter) T=/repo/freighter/go; P=github.com/synnaxlabs/freighter;;
+  arc) T=/repo/arc/go; P=github.com/synnaxlabs/arc;;
+  *) echo "unknown harness module $1" >&2; exit 2;;
 esac
-cat $SRC 2>/dev/null | sort -u > "$HERE/harness/$1/go.sum"
+D="$HERE/harness/$1"
+python3 - "$T" "$P" "$D" "$HERE" <<'PY'
+import sys, re, os
+T, P, D, HERE = sys.argv[1:]
+src = open(os.path.join(T, "go.mod")).read()
+src = re.sub(r'^module .*$', 'module %s/zverif' % P, src, count=1, flags=re.M)
+def absrep(m):
+    return m.group(1) + os.path.normpath(os.path.join(T, m.group(2)))
+src = re.sub(r'(=>\s*)(\.\.?/[^\s]*)', absrep, src)
+src += "\nrequire %s v0.0.0\nrequire verifkit v0.0.0\nreplace %s => %s\nreplace verifkit => %s/kit\n" % (P, P, T, HERE)
+extra = os.path.join(D, "go.mod.extra")
+if os.path.exists(extra):
+    src += open(extra).read()
+old = None
+try: old = open(os.path.join(D, "go.mod")).read()
+except FileNotFoundError: pass
+if old != src:
+    open(os.path.join(D, "go.mod"), "w").write(src)
+sums = set()
+for f in [os.path.join(T, "go.sum"), "/repo/freighter/integration/go.sum" if P.endswith("freighter") else None]:
+    if f and os.path.exists(f):
+        sums.update(l for l in open(f).read().splitlines() if l.strip())
+open(os.path.join(D, "go.sum"), "w").write("\n".join(sorted(sums)) + "\n")
+PY
